@@ -87,7 +87,7 @@ def shards(tier, seed):
         out.append({'kind': 'enum', 'lang': 'css', 'part': p, 'nparts': n, 'maxlen': b['maxlen']})
     nm = 8 if tier == 'quick' else 16
     for p in range(nm):
-        out.append({'kind': 'mutation', 'n': 25 if tier == 'quick' else 450})
+        out.append({'kind': 'mutation', 'first': p == 0, 'n': 25 if tier == 'quick' else 450})
     return out
 
 
@@ -259,6 +259,14 @@ def run_shard(desc, ctx):
                     for s in ('p${%s}' % run, 'p${%s:x}' % run, 'p' + run, 'p.' + run, 'p-' + run, 'c#' + run, 'c#f.' + run, '@w' + run, 'p%s.%s' % (run, run), 'z' + run,
                               'p%se' % run, 'bd1-s#f.' + run):
                         mon.check(s, 'css', {'type': 'stylesheet'}, 'css:extreme-run')
+            if desc.get('first'):
+                for s in stretch.class_border_inputs(stretch.MARKUP_NUMBER_SLOTS):
+                    if not RE_BIG_LOREM.search(s):
+                        for name, cfg in (MARKUP_CFGS[0], rng.choice(MARKUP_CFGS[1:])):
+                            mon.check(s, name, dict(cfg, maxRepeat=3), 'markup:class-border')
+                for s in stretch.class_border_inputs(stretch.CSS_NUMBER_SLOTS):
+                    for name, cfg in (CSS_CFGS[0], rng.choice(CSS_CFGS[1:])):
+                        mon.check(s, name, cfg, 'css:class-border')
             # nesting depth: D1 (must hold) up to 120 levels; D2 = beyond the interpreter's recursion limit (open finding)
             for depth_n, dom in [(30, 'd1'), (80, 'd1'), (120, 'd1'), (400, 'd2'), (1000, 'd2'), (2500, 'd2')]:
                 for make in DEEP_M:
